@@ -3,6 +3,7 @@ CONSTANTS
   MaxDepth = 3
   MaxDefects = 2
   Spares = {"none", "fresh", "twin"}
+  Embeds = {"none", "genuine", "foreign"}
 INVARIANT Agree
 INVARIANT ReportsTarget
 INVARIANT OffPathIrrelevant
